@@ -1000,7 +1000,16 @@ def _use_doc():
     u4 = El("use", {XLINK_HREF: "#t3", "transform": "tV"}, name="u4")
     u5 = El("use", {XLINK_HREF: "#t4", "fill": "red", "x": "2"}, name="u5")
     mid = El("path", {"id": "mid", "d": pd(("M", (9, 9)))}, name="mid")
-    root = El("svg", {"viewBox": "0 0 10 10"}, [defs, u1, mid, u2, El("g", {"id": "wrap", "opacity": "0.7"}, [u3, u4], name="wrap"), u5], name="root")
+    # targets that live in the rendered tree: in a hidden container (a sprite sheet) and in a styled group. An instance inherits
+    # from its <use> only - neither the container's display:none nor the group's paint comes along
+    sprites = El("g", {"id": "sprites", "display": "none"}, [El("path", {"id": "t5", "d": pd(("M", (5, 5)), ("L", (6, 6)))}, name="t5"),
+                                                             El("g", {"id": "t6", "stroke": "navy"}, [El("path", {"id": "t6a", "d": pd(("M", (6, 6)))}, name="t6a")], name="t6")], name="sprites")
+    styled = El("g", {"id": "styled", "fill": "blue", "fill-opacity": "0.5", "stroke-width": "4"}, [El("path", {"id": "t7", "d": pd(("M", (7, 7)), ("L", (8, 8)))}, name="t7")], name="styled")
+    u6 = El("use", {XLINK_HREF: "#t5", "x": "3", "id": "u6"}, name="u6")
+    u7 = El("use", {XLINK_HREF: "#t6", "id": "u7"}, name="u7")
+    u8 = El("use", {XLINK_HREF: "#t7", "y": "4", "id": "u8"}, name="u8")
+    u9 = El("g", {"id": "ctx", "fill": "teal"}, [El("use", {XLINK_HREF: "#t7", "id": "u9"}, name="u9")], name="ctx")
+    root = El("svg", {"viewBox": "0 0 10 10"}, [defs, u1, mid, u2, El("g", {"id": "wrap", "opacity": "0.7"}, [u3, u4], name="wrap"), u5, sprites, u6, styled, u7, u8, u9], name="root")
     return root
 
 
@@ -1037,7 +1046,7 @@ def check_resolve_use(repo: Repo, rep: Report, rules: Dict[str, str]):
         if probs[k]:
             rep.fail(rid, F, what[k], f"{len(probs[k])} deviations; first: {probs[k][0]}", svg, fn)
         else:
-            rep.ok(rid, F + f" [{k}]", f"schematic document with 5 uses (offsets, transforms, group target, nested use, basic shape, shared target): {what[k]}", True)
+            rep.ok(rid, F + f" [{k}]", f"schematic document with 9 uses (offsets, transforms, group target, nested use, basic shape, shared target, targets inside a display:none container, target inside a styled group used from plain and from styled context): {what[k]}", True)
 
 
 # =========================================================================================== nested svg
